@@ -206,6 +206,59 @@ func TestVerifEnum(t *testing.T) {
 			}
 		}
 	}
+	// lines far longer than any buffer a writer might want to bound, delivered in two or three writes
+	r.Begin("long-lines", "one line of 65 535 .. 200 000 bytes with an address at every offset from 120 bytes before to 10 bytes after the first write boundary (first write of 65 536, 65 537, 66 000 or 131 072 bytes), optionally a third write: nothing reaches the sink before the newline, the sink gets exactly the scrubbed line, the address is nowhere in it")
+	{
+		addrs := []string{"192.168.13.77:4431", "[2001:db8::77]:443"}
+		firsts := []int{65536, 65537, 66000, 131072}
+		if !th {
+			firsts = firsts[:3]
+			addrs = addrs[:1]
+		}
+		for _, first := range firsts {
+			for _, addr := range addrs {
+				for off := first - 120; off <= first+10; off++ {
+					if !r.Mine() {
+						continue
+					}
+					if r.TimeUp() {
+						break
+					}
+					total := first + 4000
+					var sb strings.Builder
+					for sb.Len() < off-1 {
+						sb.WriteString("relayed bytes ok ")
+					}
+					line := sb.String()[:off-1] + " " + addr + " "
+					for len(line) < total {
+						line += "and more text "
+					}
+					line += "\n"
+					want := scrubString(line)
+					for _, parts := range [][]string{{line[:first], line[first:]}, {line[:first], line[first : first+1000], line[first+1000:]}} {
+						rec, bad := writeSplit(parts)
+						r.Case(fmt.Sprintf("long|%d|%s|%d|%d", first, addr, off, len(parts)), true)
+						in := map[string]interface{}{"line_bytes": len(line), "address": addr, "address_offset": off, "write_sizes": []int{len(parts[0]), len(line) - len(parts[0])}}
+						if bad != "" {
+							fails.Add("writer:wrong-return-value", bad, "long line", in)
+						}
+						for _, c := range rec.calls {
+							if !strings.HasSuffix(c, "\n") {
+								fails.Add("writer:incomplete-line-emitted", fmt.Sprintf("a line of %d bytes written in %d pieces: the sink received %d bytes that do not end in a newline", len(line), len(parts), len(c)), "long line", in)
+								break
+							}
+						}
+						got := rec.all()
+						if strings.Contains(got, strings.Trim(addr, "[]")) || strings.Contains(got, "192.168.13.77") || strings.Contains(got, "2001:db8::77") {
+							fails.Add("unscrubbed:long-line-cut-by-a-write-boundary", fmt.Sprintf("a line of %d bytes written in %d pieces (first %d bytes): the address %s at offset %d reached the sink", len(line), len(parts), first, addr, off), "long line", in)
+						} else if got != want {
+							fails.Add("split-dependence:long-line", fmt.Sprintf("a line of %d bytes written in %d pieces reached the sink as %d bytes; one Write gives %d bytes", len(line), len(parts), len(got), len(want)), "long line", in)
+						}
+					}
+				}
+			}
+		}
+	}
 	if th {
 		r.Begin("splits3", "three-line inputs over the first 9 lines x every split into <=3 Write calls")
 		for _, a := range lines[:9] {
